@@ -259,7 +259,9 @@ def units(tier, seed):
         out.append(("random", {"curve": curves[i % len(curves)], "examples": 1500 if q else 40000, "label": "r%d" % i}))
     out.append(("cross", {"curves": curves}))
     if not q:
-        out.append(("atheris", {"runs": 300000}))
+        for cn in ("SECP112r1", "NIST192p"):
+            for kind in ("empty", "seeded"):
+                out.append(("atheris", {"runs": 400000, "curve": cn, "corpus": kind}))
     return out
 
 
@@ -355,7 +357,7 @@ def run_unit(ctx, name, **kw):
         ctx.sample({"note": "every valid encoding of any kind offered to every entry point"})
     elif name == "atheris":
         from . import c10_fuzz
-        c10_fuzz.campaign(ctx, kw["runs"])
+        c10_fuzz.campaign(ctx, kw["runs"], (kw["curve"],), (kw["corpus"],))
     else:
         raise ValueError(name)
 
